@@ -8,7 +8,7 @@ grouping differs in value/log from the alternative parenthesisations, so that a 
 Parts: (a) operator pairs / triples (precedence, associativity, short-circuit, chains)  (b) bounded random expression trees over
 all node kinds the property names, with operands that raise  (c) assignment forms (multi-target, unpacking, augmented).
 """
-import ast, itertools, operator, math, multiprocessing
+import ast, itertools, operator, math, multiprocessing, re
 import common
 from common import rng, run_vrun, oracle_exec, short
 
@@ -1117,6 +1117,42 @@ def deviation(exp, got):
     return 'wrong-value' if e[0] == 'V' else 'wrong-state-after-exception'
 
 
+RB_HEAD = '''class O:
+    def __init__(self, n):
+        self.n = n
+        self.t = 0
+        self.l = [0, 0]
+A = O("A")
+B = O("B")
+def show(ns):
+    print(A.t, B.t, A.l, B.l, ns["lst"], ns["other"], ns["i"], ns["cur"].n, ns.get("x"))
+'''
+RB_STMTS = ['cur.t += adv(7)', 'cur.l[i] += adv(7)', 'lst[i] += adv(7)', 'cur.t = adv(7)', 'lst[i] = adv(7)', 'cur.l[i] = adv(3)', 'cur.t -= adv(1) + cur.t', 'cur.l[adv(0)] += adv(2)', 'lst[:1] += [adv(1)]',
+            'x = cur.t = adv(4)', 'cur.t, lst[i] = adv(1), adv(2)', 'cur.t += adv(1) if adv(0) == 0 else 0', 'del cur.l[adv(0)]', 'cur.t **= adv(2)', 'cur.l[i] |= adv(6)', 'lst[i] <<= adv(1)', 'cur.l += [adv(9)]',
+            'cur.t += adv(1); cur.t += adv(2)', 'for cur.t in [adv(5)]: pass', 'cur.t = lst[i] = adv(8)', 'lst[i], cur.t = adv(1), adv(2)']
+
+
+def rebinding_programs():
+    out = [{'id': 'rbprobe-module', 'ctx': 'module', 'stmt': '', 'src': 'globals()["zz"] = 5\nprint(zz)\n'},
+           {'id': 'rbprobe-class', 'ctx': 'class', 'stmt': '', 'src': 'class K:\n    ns = locals()\n    ns["zz"] = 5\n    print(zz)\n'}]
+    for k, st in enumerate(RB_STMTS):
+        ind = lambda n: ''.join('    ' * n + l + '\n' for l in st.split('; '))
+        # module level: names rebound through globals()
+        out.append({'id': 'rb-module-%d' % k, 'ctx': 'module', 'stmt': st, 'src': RB_HEAD + 'cur = A\ni = 0\nlst = [0, 0]\nother = [5, 5]\nx = None\n'
+                    'def adv(v):\n    g = globals()\n    g["cur"] = B\n    g["i"] = 1\n    g["lst"] = g["other"]\n    return v\ntry:\n' + ind(1) + 'except Exception as e:\n    print("exc")\nshow(globals())\n'})
+        # class body: names rebound through the class namespace
+        out.append({'id': 'rb-class-%d' % k, 'ctx': 'class', 'stmt': st, 'src': RB_HEAD + 'class K:\n    cur = A\n    i = 0\n    lst = [0, 0]\n    other = [5, 5]\n    x = None\n    ns = locals()\n'
+                    '    def adv(v, ns=ns):\n        ns["cur"] = B\n        ns["i"] = 1\n        ns["lst"] = ns["other"]\n        return v\n    try:\n' + ind(2) + '    except Exception as e:\n        print("exc")\n    show(ns)\n'})
+        # function with declared globals
+        out.append({'id': 'rb-global-%d' % k, 'ctx': 'global', 'stmt': st, 'src': RB_HEAD + 'cur = A\ni = 0\nlst = [0, 0]\nother = [5, 5]\nx = None\n'
+                    'def adv(v):\n    global cur, i, lst\n    cur = B\n    i = 1\n    lst = other\n    return v\ndef t():\n    global cur, i, lst, x\n    try:\n' + ind(2) + '    except Exception as e:\n        print("exc")\nt()\nshow(globals())\n'})
+        # closure cells
+        out.append({'id': 'rb-cell-%d' % k, 'ctx': 'cell', 'stmt': st, 'src': RB_HEAD + 'def t():\n    cur = A\n    i = 0\n    lst = [0, 0]\n    other = [5, 5]\n    x = None\n'
+                    '    def adv(v):\n        nonlocal cur, i, lst\n        cur = B\n        i = 1\n        lst = other\n        return v\n    try:\n' + ind(2) + '    except Exception as e:\n        print("exc")\n'
+                    '    show({"lst": lst, "other": other, "i": i, "cur": cur, "x": x})\nt()\n'})
+    return out
+
+
 class Item:
     __slots__ = ('part', 'tags', 'code', 'key', 'nontrivial', 'node', 'model', 'single', 'tokens', 'env')
 
@@ -1401,6 +1437,35 @@ def run(tier, rep):
             w['smallest_failing_subexpression'] = sub_sig[fi][0]
         rep.violation('C01|%s|%s' % (tags, dev), w)
 
+    # (d) "evaluated exactly once": the object / container / index sub-expressions of an assignment target are plain NAMES that the
+    # right-hand side rebinds while it is being evaluated.  An augmented assignment reads them once, before the right-hand side; a plain
+    # assignment evaluates its targets after it.  Module level (names rebound through globals()), class body (through its locals()),
+    # function with declared globals, closure cells.
+    rb = rebinding_programs()
+    rb_exp = oracle_exec(rb)
+    rb_got, _ = run_vrun('exec', rb, timeout_case=20)
+    rb_n = 0
+    for c in rb:
+        e, g = rb_exp.get(c['id']) or {}, rb_got.get(c['id'])
+        if g is None or e.get('oracle_failed') or e.get('cerr'):
+            rep.inconc('rebinding program %s: no result / oracle failed' % c['id'])
+            continue
+        if c['id'].startswith('rbprobe'):
+            if g.get('out') != e.get('out') or g.get('exc'):
+                extra['rebinding_family_skipped'] = 'gpython does not support the rebinding route of %s' % c['id']
+            continue
+        if extra.get('rebinding_family_skipped') and c['ctx'] in extra['rebinding_family_skipped']:
+            continue
+        evaluated += 1
+        rb_n += 1
+        nontriv.add(('rebind', c['ctx'], c['stmt']))
+        if g.get('panic') or g.get('crash') or (g.get('exc') or None) != (e.get('exc') or None) or g.get('out') != e.get('out') or g.get('cerr'):
+            kind = 'aug' if re.search(r'[-+*/]=', c['stmt']) else 'assign'
+            rep.violation('C01|rebinding-during-evaluation|ctx=%s|%s|%s' % (c['ctx'], kind, 'panic' if g.get('panic') or g.get('crash') else ('compile-error' if g.get('cerr') else 'wrong-object-or-state')),
+                          {'case': {'id': c['id'], 'src': c['src']}, 'statement': c['stmt'], 'context': c['ctx'], 'expected': {k: e.get(k) for k in ('out', 'exc')},
+                           'got': {k: short(g.get(k), 1200) for k in ('out', 'exc', 'excmsg', 'cerr', 'panic', 'stack') if g.get(k)}})
+    extra['rebinding_programs'] = rb_n
+
     rep.evaluations += evaluated
     rep.nontrivial = nontriv
     extra.update(oracle_disagreement_samples=disagree_samples, programs=len(cases), items=len(items), oracle_disagreement=model_disagree, model_checked_items=model_checked,
@@ -1412,7 +1477,8 @@ def run(tier, rep):
                 'assignments chosen (by a grouping model run on all re-parenthesisations) so that Python\'s grouping differs observably from the alternatives; (b) seeded random typed expression trees of depth <=%d '
                 'over arithmetic, bitwise, compare chains, and/or, ifexp, subscript, slice, attribute, calls (positional/keyword/*seq/**map/keyword-only), lambda with defaults, list/tuple/set/dict displays, with raising operands; '
                 '(c) seeded assignment statements: multi-target, tuple/list/star/nested unpacking, augmented assignment on name/subscript/attribute/slice targets in module, global and local name contexts. '
-                'non-trivial = distinct item with >=2 operators (a), >=2 logging operands and >=1 operator node (b), >=1 logging operand (c), on which the model (a) and CPython agree' % ('sampled' if quick else 'all', 3 if quick else 4))
+                '(d) %d assignment statements whose target sub-expressions are names that the right-hand side rebinds while being evaluated, in module / class-body / declared-global / closure-cell context. '
+                'non-trivial = distinct item with >=2 operators (a), >=2 logging operands and >=1 operator node (b), >=1 logging operand (c), on which the model (a) and CPython agree' % ('sampled' if quick else 'all', 3 if quick else 4, len(RB_STMTS)))
     smp = []
     for part in ('ops', 'tree', 'assign'):
         for it in items:
